@@ -108,6 +108,9 @@ Lemma dayfilter_map (g : arun -> arun) day l : (forall a, a_stamp (g a) = a_stam
 Proof.
   intros G. rewrite filter_map_comm. f_equal. apply filter_ext. intros a. unfold dayP. rewrite G. reflexivity.
 Qed.
+Lemma statusfilter_map (g : arun -> arun) l : (forall a, a_sts (g a) = a_sts a) ->
+  filter has_status (map g l) = map g (filter has_status l).
+Proof. intros G. rewrite filter_map_comm. f_equal. apply filter_ext. intros a. unfold has_status. rewrite G. reflexivity. Qed.
 Lemma newest_map (g : arun -> arun) l : (forall a, a_stamp (g a) = a_stamp a) -> newest_first (map g l) = map g (newest_first l).
 Proof.
   intros G. unfold newest_first. rewrite sort_desc_map. f_equal. apply sort_desc_ext. intros x y _ _. rewrite !G. reflexivity.
@@ -143,10 +146,10 @@ Proof.
       destruct (String.eqb (a_req a) req && match a_sts a with [] => false | _ :: _ => true end)%bool; auto. }
     rewrite X by exact DV. destruct (find (is_run d req) (dag_view H d)); reflexivity.
   - intros day. unfold sp_latest. rewrite !runs_of_view, V. rewrite (dayfilter_map (set_dag d')) by reflexivity.
-    rewrite (newest_map (set_dag d')) by reflexivity.
-    destruct (newest_first (filter (dayP day) (dag_view H d))); reflexivity.
+    rewrite (statusfilter_map (set_dag d')) by reflexivity. rewrite (newest_map (set_dag d')) by reflexivity.
+    destruct (newest_first (filter has_status (filter (dayP day) (dag_view H d)))); reflexivity.
   - intros n. unfold sp_recent. rewrite !runs_of_view, V. rewrite (dayfilter_map (set_dag d')) by reflexivity.
-    rewrite (newest_map (set_dag d')) by reflexivity. rewrite firstn_map.
+    rewrite (statusfilter_map (set_dag d')) by reflexivity. rewrite (newest_map (set_dag d')) by reflexivity. rewrite firstn_map.
     rewrite !flat_map_concat_map, map_map. reflexivity.
 Qed.
 
